@@ -29,7 +29,7 @@ def run():
         outside=["the walk (C09)", "hard-link sub-group counting", "rayon/crossbeam plumbing"])
     ctx = oblig.Ctx()
     prog = ctx.lib
-    oblig.install_battery(rep, ctx, ["c03_battery"])
+    oblig.install_battery(rep, ctx, ["c03_battery", "c01_battery"])
 
     def finish(o, scenario):
         if o.verdict == "violated" and scenario:
@@ -47,6 +47,15 @@ def run():
             o = Obligation(name, "E2 mirsym/z3")
             o.verdict, o.detail = "inconclusive", str(e)
             rep.add(o)
+
+    # ---- stage ranges: what is hashed decides which files can end up in one class.  A prefix stage that covers less than the whole
+    # of a file the later stages skip merges different files (with --unique they vanish from the report); ranges that depend on the
+    # device split the class of identical files stored on different kinds of disks
+    def ranges():
+        from obligations import C01
+        rep.add(C01.prefix_coverage_obligation(prog, engs, fn))
+        rep.add(C01.prefix_consistency_obligation(prog, engs, fn))
+    guarded("stage ranges", ranges)
 
     # ---- O2a: tail of rehash: partition(pre_filter) -> second part chained -> post filter on everything
     def tail():
